@@ -569,6 +569,167 @@ def gen_ofx(ctx, rng, side):
     return build(M.OFX, [], kw)
 
 
+# ------------------------------------------------------------------ deterministic interleaving stream (no random generator involved)
+class Fixed:
+    """hand-written minimal members with fixed values; every call builds FRESH objects (identity is what the oracle compares)"""
+    def __init__(self, ctx):
+        self.M = ctx.M
+        self.n = 0
+
+    def uid(self):
+        self.n += 1
+        return "T%04d" % self.n
+
+    def status(self, code="0"):
+        return self.M.STATUS(code=code, severity="INFO" if code == "0" else "ERROR")
+
+    def bank(self):
+        return self.M.BANKACCTFROM(bankid="111000614", acctid="A%d" % self.n, accttype="CHECKING")
+
+    def cc(self):
+        return self.M.CCACCTFROM(acctid="C%d" % self.n)
+
+    def inv(self):
+        return self.M.INVACCTFROM(brokerid="broker.example", acctid="I%d" % self.n)
+
+    def bal(self):
+        return self.M.LEDGERBAL(balamt="12.34", dtasof="20200102")
+
+    def stmt(self, cn):
+        M = self.M
+        if cn == "STMTRS": return M.STMTRS(curdef="USD", bankacctfrom=self.bank(), ledgerbal=self.bal())
+        if cn == "STMTENDRS": return M.STMTENDRS(curdef="USD", bankacctfrom=self.bank())
+        if cn == "CCSTMTRS": return M.CCSTMTRS(curdef="USD", ccacctfrom=self.cc(), ledgerbal=self.bal())
+        if cn == "CCSTMTENDRS": return M.CCSTMTENDRS(curdef="USD", ccacctfrom=self.cc())
+        if cn == "INVSTMTRS": return M.INVSTMTRS(dtasof="20200102", curdef="USD", invacctfrom=self.inv())
+        if cn == "STMTRQ": return M.STMTRQ(bankacctfrom=self.bank())
+        if cn == "STMTENDRQ": return M.STMTENDRQ(bankacctfrom=self.bank())
+        if cn == "CCSTMTRQ": return M.CCSTMTRQ(ccacctfrom=self.cc())
+        if cn == "CCSTMTENDRQ": return M.CCSTMTENDRQ(ccacctfrom=self.cc())
+        if cn == "INVSTMTRQ": return M.INVSTMTRQ(invacctfrom=self.inv(), incoo="N", incpos=M.INCPOS(include="N"), incbal="N")
+        raise KeyError(cn)
+
+    def wrapper(self, wcls, with_statement=True):
+        """a *TRNRQ / *TRNRS of class wcls; response wrappers may come without statement (error-only)"""
+        cls = getattr(self.M, wcls)
+        attr = WRAPPED[wcls]
+        kw = {"trnuid": self.uid()}
+        if wcls.endswith("RS"):
+            kw["status"] = self.status("0" if with_statement else "2000")
+            kw["cltcookie"] = "ck%d" % self.n
+        if with_statement:
+            kw[attr] = self.stmt(attr.upper())
+        return cls(**kw)
+
+    def secinfo(self):
+        self.n += 1
+        return self.M.SECINFO(secid=self.M.SECID(uniqueid="%09d" % self.n, uniqueidtype="CUSIP"), secname="sec %d" % self.n)
+
+    def security(self, k):
+        M = self.M
+        return [lambda: M.STOCKINFO(secinfo=self.secinfo()), lambda: M.OTHERINFO(secinfo=self.secinfo()),
+                lambda: M.DEBTINFO(secinfo=self.secinfo(), parvalue="100", debttype="COUPON")][k % 3]()
+
+    def signon(self, side):
+        M = self.M
+        if side == "RS":
+            return M.SIGNONMSGSRSV1(sonrs=M.SONRS(status=self.status(), dtserver="20200102", language="ENG"))
+        return M.SIGNONMSGSRQV1(sonrq=M.SONRQ(dtclient="20200102", userid="u", userpass="p", language="ENG", appid="QWIN", appver="2700"))
+
+
+# s = statement wrapper, e = closing-statement wrapper, x / y = the same wrappers WITHOUT statement (error-only; response side)
+PATTERNS_2 = ["", "s", "e", "se", "es", "esesse", "sse", "ees", "sss", "eee", "sesese"]
+PATTERNS_2_ERR = ["x", "y", "xs", "sx", "ye", "exs", "esxye", "xyse", "eyxs", "xsyexs"]
+PATTERNS_1 = ["", "s", "ss", "sss"]
+PATTERNS_1_ERR = ["x", "xs", "sx", "sxs", "xxs", "sxsxs"]
+MSGSET_KINDS = {   # message set -> (statement wrapper, closing-statement wrapper or None)
+    "BANKMSGSRQV1": ("STMTTRNRQ", "STMTENDTRNRQ"), "CREDITCARDMSGSRQV1": ("CCSTMTTRNRQ", "CCSTMTENDTRNRQ"), "INVSTMTMSGSRQV1": ("INVSTMTTRNRQ", None),
+    "BANKMSGSRSV1": ("STMTTRNRS", "STMTENDTRNRS"), "CREDITCARDMSGSRSV1": ("CCSTMTTRNRS", "CCSTMTENDTRNRS"), "INVSTMTMSGSRSV1": ("INVSTMTTRNRS", None),
+}
+
+
+def build_msgset(ctx, fx, cn, pattern):
+    sw, ew = MSGSET_KINDS[cn]
+    members = []
+    for ch in pattern:
+        members.append(fx.wrapper(sw if ch in "sx" else ew, with_statement=ch in "se"))
+    return ctx.byname[cn](*members)
+
+
+def msgset_patterns(cn):
+    sw, ew = MSGSET_KINDS[cn]
+    rs = cn.endswith("RSV1")
+    if ew is None:
+        return PATTERNS_1 + (PATTERNS_1_ERR if rs else [])
+    return PATTERNS_2 + (PATTERNS_2_ERR if rs else [])
+
+
+def reparse(ctx, obj):
+    """the same model through a written and parsed document (whole OFX: header + body through OFXTree; a message set: its element tree)"""
+    import io
+    import xml.etree.ElementTree as ET
+    with warnings.catch_warnings():
+        warnings.simplefilter("ignore")
+        tree = obj.to_etree()
+        if type(obj).__name__ == "OFX":
+            from ofxtools.Parser import OFXTree
+            from ofxtools.header import make_header
+            data = str(make_header(version=220)).encode("ascii") + ET.tostring(tree, short_empty_elements=False)
+            p = OFXTree()
+            p.parse(io.BytesIO(data))
+            return p.convert()
+        return ctx.Aggregate.from_etree(tree)
+
+
+def interleaved_stream(ctx):
+    """[(label, instance)] - systematic, independent of the random generators: every statements / securities shortcut over members that
+    interleave the admissible kinds in several orders, each kind 0..3 times, with and without error-only wrappers; keyword route and parsed route"""
+    fx = Fixed(ctx)
+    out = []
+
+    def both(label, make):
+        o = make()
+        out.append((label, o))
+        try:
+            out.append((label + " (parsed)", reparse(ctx, o)))
+        except Exception:
+            pass        # the library does not read back what it wrote for this shape: C01 / C13's subject, not C16's
+    for cn in MSGSET_KINDS:
+        for pat in msgset_patterns(cn):
+            both("%s[%s]" % (cn, pat), lambda cn=cn, pat=pat: build_msgset(ctx, fx, cn, pat))
+    M = ctx.M
+    combos = [("RS", {"BANKMSGSRSV1": "es", "CREDITCARDMSGSRSV1": "se", "INVSTMTMSGSRSV1": "s"}),
+              ("RS", {"BANKMSGSRSV1": "esxye", "INVSTMTMSGSRSV1": "xsxs"}),
+              ("RS", {"CREDITCARDMSGSRSV1": "eyxs", "BANKMSGSRSV1": ""}),
+              ("RS", {"INVSTMTMSGSRSV1": "ss", "CREDITCARDMSGSRSV1": "ees", "BANKMSGSRSV1": "sse"}),
+              ("RS", {}),
+              ("RQ", {"BANKMSGSRQV1": "es", "CREDITCARDMSGSRQV1": "se", "INVSTMTMSGSRQV1": "s"}),
+              ("RQ", {"BANKMSGSRQV1": "esesse", "INVSTMTMSGSRQV1": "sss"}),
+              ("RQ", {"CREDITCARDMSGSRQV1": "ees", "BANKMSGSRQV1": "sse"}),
+              ("RQ", {})]
+    for side, sets in combos:
+        def mk(side=side, sets=sets):
+            kw = {"signonmsgs%sv1" % side.lower(): fx.signon(side)}
+            for cn, pat in sets.items():
+                kw[cn.lower()] = build_msgset(ctx, fx, cn, pat)
+            return M.OFX(**kw)
+        both("OFX %s %s" % (side, sorted(sets.items())), mk)
+    # securities: SECLISTs of 0..3 members interleaved with SECLISTTRNRS wrappers, alone and under OFX
+    sec_patterns = [[], [2], [0], [1, 2], [2, None, 1], [None, 3, 0, 1], [0, 0], [3, None, None, 2, 1]]
+    for pat in sec_patterns:
+        def mksec(pat=pat):
+            members, k = [], 0
+            for n in pat:
+                if n is None:
+                    members.append(M.SECLISTTRNRS(trnuid=fx.uid(), status=fx.status()))
+                else:
+                    members.append(M.SECLIST(*[fx.security(k + i) for i in range(n)])); k += n
+            return M.SECLISTMSGSRSV1(*members)
+        both("SECLISTMSGSRSV1%s" % pat, mksec)
+        both("OFX securities %s" % pat, lambda pat=pat, mksec=mksec: M.OFX(signonmsgsrsv1=fx.signon("RS"), seclistmsgsrsv1=mksec()))
+    return out
+
+
 def corpus_instances(ctx):
     out = []
     for p in sorted(glob.glob(os.path.join(C.VERIF, "corpus", PROP, "*.json"))):
@@ -623,6 +784,15 @@ def run(rep, tier, rng):
     # corpus first
     for fname, ent, obj in corpus_instances(ctx):
         take(obj, "corpus", blank=bool(ent.get("blank")))
+    # systematic interleavings of the members every statements / securities shortcut walks (no random generator involved)
+    try:
+        stream = interleaved_stream(ctx)
+    except Exception as e:
+        stream = []
+        rep.broken.append("the systematic interleaving stream could not be built: %r" % (e,))
+    for label, obj in stream:
+        take(obj, "interleaved")
+    rep.extra["interleaved_instances"] = len(stream)
     # every concrete class: blank instance, presence variants
     budget = 32 if thorough else 8
     rounds = 5 if thorough else 1
